@@ -7,8 +7,10 @@ import coqlit as L
 import c17_util as U
 
 ID = "C17"
-THEOREMS = ["C17_combine", "C17_combine_sorted", "C17_filter", "C17_next_use", "C17_buffet_binding", "C17_schedule_interleaves", "C17_buffet_run_binding",
-            "C17_bounds", "C17_line_granular", "C17_cache_tie_refuted", "C17_model_meets_spec_partial"]
+THEOREMS = ["C17_combine", "C17_combine_sorted", "C17_filter", "C17_next_use", "C17_buffet_binding",
+            "C17_schedule_interleaves", "C17_buffet_run_binding", "C17_buffet_machine",
+            "C17_buffet_fills_writebacks", "C17_bounds", "C17_line_granular", "C17_cache_tie_refuted",
+            "C17_model_meets_spec", "C17_model_meets_spec_no_cache"]
 COQ_IMPORTS = "From FT Require Import Model.Base Model.Obs Model.C17Traffic Model.C17Check."
 CHECK_VO = ["Model/C17Check.v"]
 CHECKER = "c17_checker"
@@ -29,15 +31,19 @@ TRUSTED = ["Coq 8.16.1 kernel (coqc; coqchk in the thorough tier); vm_compute us
            "row lists), tied to the working tree by the differential correspondence check of this run",
            "harness: harness/check.py, harness/props/c17.py, harness/c17_util.py (writes the CSV traces, builds "
            "Format objects, lists the temporary directory before/after), CPython 3.12",
-           "the cache clause (fills = furthest-next-use with bypass) is decided by the Coq-defined oracle on the "
-           "implementation's and the model's outputs of this run, not by a universally quantified theorem"]
+           "the cache clause (fills = furthest-next-use with bypass, monotone in capacity) is decided by the "
+           "Coq-defined oracle on the implementation's and the model's outputs of this run, not by a universally "
+           "quantified theorem; every other clause of the oracle is proved for the model (C17_model_meets_spec)"]
 ASSUMPTIONS = ["trace files are well formed: rows of the rank's depth, non-negative integers, stamps non-decreasing",
                "bindings have distinct (tensor, rank, type) and bind a rank of their tensor, so objects of "
                "different bindings never collide in objs[tensor][type]",
                "Format.getElem is an input (element bits), property C18 covers Format"]
 EXPLANATION = ("theorems: combine = stable sort; filter = membership filter; next-use scan = next access of the line; "
-               "buffet state machine = (line, window) first-occurrence counts for every interleaving; bounds; "
-               "line granularity; cache: oracle-checked MIN-with-bypass on access indices, refuted under stamp ties")
+               "k-way merge is an interleaving; buffet state machine (in-order drain) = (line, window) first-occurrence "
+               "counts for every window-sorted access sequence, lifted to the per-tensor observation of the model "
+               "(C17_buffet_fills_writebacks); bounds; line granularity; model meets every oracle clause except the "
+               "cache clause (hypothesis of C17_model_meets_spec); cache: oracle-checked MIN-with-bypass on access "
+               "indices, refuted under stamp ties")
 
 
 # ------------------------------------------------------------------ generator
